@@ -89,6 +89,8 @@ class Imputer(_SeriesToSeriesTransformer):
         self.check_is_fitted()
         self._check_method()
         Z = check_series(Z)
+        # columns of a data frame are imputed in place below, so work on a copy
+        Z = Z.copy()
 
         # replace missing_values with np.nan
         if self.missing_values:
